@@ -28,7 +28,9 @@ def evaluate(ctx, case):
     refpos, tgt, s = case["ref"]["pos"], case["tgt"], case["s"]
     n = len(refpos)
     anchors, nb = E.anchors_of(n, [tuple(b) for b in case["ref"]["bonds"]])
-    impl = E.run_impl(ctx, case)
+    impl = E.safe_run(ctx, case)
+    if impl is None:
+        return
     R = E.rotation(case["axis"], case["theta"])
     t = np.array(case["t"], dtype=float)
     ctx.case(case, nontrivial=case["theta"] != 0.0 or any(case["t"]),
